@@ -337,8 +337,10 @@ class Runner:
             w.pick = act["pick"]
             NotRoutable = w.ns.node.NotRoutable
 
-            def sender(k=act["k"], realm=act["realm"], timeout=act["timeout"]):
+            def sender(k=act["k"], realm=act["realm"], timeout=act["timeout"], dhost=act.get("dhost", "")):
                 req = msgs.ccr(NODE_HOST, dest_realm=realm, hbh=0, e2e=0, app=0)
+                if dhost:           # a Destination-Host does not widen the set of eligible peers
+                    req.destination_host = dhost.encode()
                 hbh = e2e = 0
                 try:
                     ans = app.send_request(req, timeout=timeout)
@@ -647,8 +649,10 @@ class Gen:
         if a == "send":
             self.nsend = getattr(self, "nsend", 0) + 1
             app = rng.choice(self.r.full_cfg["apps"])
+            hosts = [""] + [p["host"] for p in self.r.full_cfg["peers"]]
             return {"a": "send", "k": self.nsend, "app": app["name"], "realm": rng.choices(["r1", "r2", "r3", "r9"], weights=[8, 2, 1, 1])[0],
-                    "timeout": rng.choice([1, 2, 3, 30]), "pick": rng.choice(["first", "last"])}
+                    "timeout": rng.choice([1, 2, 3, 30]), "pick": rng.choice(["first", "last"]),
+                    "dhost": hosts[self.nsend % len(hosts)]}       # (derived from the count: the random stream stays as it was)
         if a == "resubmit":
             name, req = rng.choice(self.r.answered)
             from .world import abs_from_msg
